@@ -29,6 +29,7 @@ ap.add_argument('--seed', type=int, default=1)
 ap.add_argument('--files', default='')
 ap.add_argument('--ids', default='')
 ap.add_argument('--max-checks', type=int, default=8)
+ap.add_argument('--laneroot', default='/tmp/mutlanes')
 ap.add_argument('--out', default=os.path.join(VERIF, 'mutsweep', 'results.jsonl'))
 args = ap.parse_args()
 
@@ -66,8 +67,10 @@ def checks_for(m):
 
 base = set(json.load(open('/root/.vp/BASELINE.json'))['stable_pass'])
 
-subprocess.run('cd %s/mutsweep && go run . /repo > /tmp/muts.jsonl' % VERIF, shell=True, env=ENV, check=True, stderr=subprocess.DEVNULL)
-muts = [json.loads(l) for l in open('/tmp/muts.jsonl')]
+mf = '/tmp/muts.%d.jsonl' % os.getpid()
+subprocess.run('cd %s/mutsweep && go run . /repo > %s' % (VERIF, mf), shell=True, env=ENV, check=True, stderr=subprocess.DEVNULL)
+muts = [json.loads(l) for l in open(mf)]
+os.remove(mf)
 if args.files:
     fs = set(args.files.split(','))
     muts = [m for m in muts if m['file'] in fs]
@@ -92,7 +95,7 @@ queue = list(muts)
 outf = open(args.out, 'a')
 
 def lane(i):
-    root = '%s/l%d' % (LANEROOT, i)
+    root = '%s/l%d' % (args.laneroot, i)
     repo, verif = root + '/repo', root + '/verif'
     subprocess.run('git -C /repo worktree remove --force %s 2>/dev/null; rm -rf %s; mkdir -p %s; git -C /repo worktree add -q --detach %s HEAD' % (repo, root, root, repo), shell=True)
     subprocess.run("rsync -a --exclude out --exclude build --exclude .git --exclude seeded --exclude mutsweep/results.jsonl %s/ %s/" % (VERIF, verif), shell=True)
